@@ -78,7 +78,7 @@ func runControls(pr *rules.Property, repo, verif string, known map[string]bool) 
 		jobs = append(jobs, job{f, kind, note})
 	}
 	out := make([]controlResult, len(jobs))
-	sem := make(chan struct{}, 6)
+	sem := make(chan struct{}, 10)
 	var wg sync.WaitGroup
 	for i, j := range jobs {
 		wg.Add(1)
@@ -171,7 +171,7 @@ func runOneControl(pr *rules.Property, repo, patch string, known map[string]bool
 	pr.RunLocked(p, rp)
 	if nBad(rp) > 0 {
 		for _, mode := range []func(*core.Program) func(*types.Func) bool{rules.Anchors, rules.AnchorsByName} {
-			if rn := runNormalised(pr, dst, core.Configs[0], p, mode); rn != nil && nBad(rn) < nBad(rp) {
+			if rn := runNormalised(pr, dst, core.Configs[0], p, mode); rn != nil && nBad(rn) < nBad(rp) && coversRules(rn, rp) {
 				rp = rn
 			}
 		}
